@@ -37,6 +37,10 @@ def extent_spec(draw, tier="quick", kind=None, layer=0, capacity=None, allow_com
     if kind == "flat":
         cap = capacity or draw(st.one_of(st.integers(1, 64), st.integers(1, 9000)))
         spec.update(capacity=cap, holes=draw(st.lists(st.integers(0, 4), max_size=2, unique=True)))
+        # a raw disk whose first bytes look like a script or a comment (only "# Di", the descriptor's own first bytes, is excluded)
+        head = draw(st.sampled_from([None, None, None, "#!/bin/sh\necho hi\n", "\n\n# comment\n", "#", "   #x", "# disk", "KDM", "COW"]))
+        if head:
+            spec["head"] = head
         return spec
     if kind == "kdmv":
         grain = draw(st.sampled_from([128, 128, 8, 16, 64, 2048, 32, 256, 512, 1024]))
